@@ -2,6 +2,7 @@ package scen
 
 import (
 	"bytes"
+	"sync"
 	"fmt"
 	"hash/fnv"
 	"io"
@@ -46,6 +47,9 @@ func (c01) Gen(r *rand.Rand, tier string, run int) *core.Case {
 	c.Params["frag"] = r.IntN(3)
 	c.Params["fragseed"] = r.IntN(1 << 30)
 	c.Params["eofdata"] = r.IntN(2)
+	if r.IntN(5) == 0 {
+		c.Params["concurrent"] = 1
+	}
 	n := 1 + r.IntN(6)
 	sizes := []int{0, 0, 1, 2, 27, 28, 29, 255, 256, 1000, 4096, 65536}
 	big := r.IntN(150) == 0
@@ -75,10 +79,17 @@ func (c01) Gen(r *rand.Rand, tier string, run int) *core.Case {
 	return c
 }
 
+type c01pending struct {
+	i int
+	f ref.Frame
+	m net.Message
+}
+
 func (c01) Run(c *core.Case, env *core.Env) {
 	limit := int(net.MaxPayloadSize)
 	var want []ref.Frame
 	var wire []byte
+	var pending []c01pending
 	pr := rand.New(rand.NewPCG(uint64(c.P("fragseed", 1)), 3))
 	for i, op := range c.Ops {
 		if op.Kind != "msg" {
@@ -102,6 +113,12 @@ func (c01) Run(c *core.Case, env *core.Env) {
 		// 1. what Message.Write puts on the stream is the documented layout
 		hdr := net.Header{Magic: net.Magic, ID: id, Size: uint32(size), Version: 0, Type: uint8(op.X), Flags: uint8(flags), Service: service, Object: object, Action: action}
 		m := net.Message{Header: hdr, Payload: payload}
+		if c.P("concurrent", 0) == 1 {
+			// written later, all at once, each on a slow stream of its own
+			pending = append(pending, c01pending{i, f, m})
+			wire = append(wire, f.Encode()...)
+			continue
+		}
 		var w sio.RecWriter
 		h := env.Invoke(0, "write", f.String())
 		err := m.Write(&w)
@@ -118,6 +135,36 @@ func (c01) Run(c *core.Case, env *core.Env) {
 			env.Probe("single-write")
 		}
 		wire = append(wire, w.Data...)
+	}
+	if len(pending) > 0 {
+		// 1b. several writers at once, each on its own stream, each write
+		// taking its bytes in two instalments: every stream must carry exactly
+		// its own message (no state shared between writers)
+		ws := make([]sio.SlowWriter, len(pending))
+		errs := make([]error, len(pending))
+		var wg sync.WaitGroup
+		for k := range pending {
+			ws[k].Pause = func() { zzsim.Yield("h.slow-write") }
+			wg.Add(1)
+			go func(k int) {
+				defer wg.Done()
+				h := env.Invoke(10+k, "write", pending[k].f.String())
+				errs[k] = pending[k].m.Write(&ws[k])
+				env.Return(h, fmt.Sprintf("%d bytes in %d writes", len(ws[k].Data), len(ws[k].Calls)), errs[k])
+			}(k)
+		}
+		wg.Wait()
+		for k, p := range pending {
+			if errs[k] != nil {
+				env.Violate("write-error", "Message.Write failed for message %d (%s): %v", p.i, p.f, errs[k])
+				return
+			}
+			if !bytes.Equal(ws[k].Data, p.f.Encode()) {
+				env.Violate("layout/concurrent-writers", "message %d (%s), written while %d other messages were being written to other streams: bytes on its stream differ from the documented layout:\n got  %x\n want %x", p.i, p.f, len(pending)-1, head(ws[k].Data, 40), head(p.f.Encode(), 40))
+				return
+			}
+		}
+		env.Probe("concurrent-writers")
 	}
 	// 2. a refusal case follows the valid messages
 	refusal := ""
